@@ -472,6 +472,43 @@ func knownAnswers() {
 		fail("security.NIA1", "known-answer", map[string]interface{}{"op": "NIA1", "key": hk.Hex(ik2[:]), "count": uint32(0x36af6144), "bearer": 0x18, "direction": 1, "msg": hk.Hex(m2), "length": 254},
 			fmt.Sprintf("128-EIA1 test set 2: got %x, published e3259f6f", mac2))
 	}
+	// short messages: expected values computed with the Coq specification (coq/CS3G/Spec.v:
+	// Spec.EIA1 / Spec.EEA1 on the first n bits of `pat`), pinned here as an independent oracle
+	pat := []byte{0xb3, 0xd3, 0xc9, 0x17, 0x0a, 0x4e, 0x16, 0x32, 0xf6, 0x0f, 0x86, 0x10, 0x13, 0xd2, 0x2d, 0x84, 0xb7}
+	bitsOf := func(n int) []byte {
+		b := append([]byte{}, pat[:(n+7)/8]...)
+		if n%8 != 0 {
+			b[len(b)-1] &= 0xff << (8 - n%8)
+		}
+		return b
+	}
+	for i, n := range []int{0, 1, 7, 8, 9, 63, 64, 65, 128} {
+		want := []uint32{301028474, 121710442, 578209909, 2389405601, 809218534, 3643856747, 756293727, 2251050613, 4099795214}[i]
+		m := bitsOf(n)
+		mac := emitNIA1("known-answers", ik1, 0x38a6f056, 0x1d, 1, m, uint64(n))
+		if len(mac) != 4 || binary.BigEndian.Uint32(mac) != want {
+			fail("security.NIA1", "known-answer", map[string]interface{}{"op": "NIA1", "key": hk.Hex(ik1[:]), "count": uint32(0x38a6f056), "bearer": 0x1d, "direction": 1, "msg": hk.Hex(m), "length": n},
+				fmt.Sprintf("UIA2 specification (Coq) on %d bits: got %x, expected %08x", n, mac, want))
+		}
+	}
+	for i, n := range []int{1, 7, 8, 9, 31, 32, 33, 40, 64, 65} {
+		want := [][]byte{{0}, {64}, {65}, {65, 128}, {65, 254, 125, 76}, {65, 254, 125, 76}, {65, 254, 125, 76, 0},
+			{65, 254, 125, 76, 61}, {65, 254, 125, 76, 61, 169, 10, 105}, {65, 254, 125, 76, 61, 169, 10, 105, 128}}[i]
+		in := bitsOf(n)
+		got := emitNEA1("known-answers", ik1, 0x72a4f20f, 0x0c, 1, in, uint32(n))
+		ok := len(got) == len(want)
+		if ok {
+			g := append([]byte{}, got...)
+			if n%8 != 0 {
+				g[len(g)-1] &= 0xff << (8 - n%8) // only the first n bits are defined by the standard
+			}
+			ok = bytes.Equal(g, want)
+		}
+		if !ok {
+			fail("security.NEA1", "known-answer", map[string]interface{}{"op": "NEA1", "key": hk.Hex(ik1[:]), "count": uint32(0x72a4f20f), "bearer": 0x0c, "direction": 1, "ibs": hk.Hex(in), "length": n},
+				fmt.Sprintf("UEA2 specification (Coq) on %d bits: got %x, expected %x", n, got, want))
+		}
+	}
 	// witness of the repaired defect F4: empty message through the API and directly
 	emitMac("known-answers", ik1, 0x38a6f056, 0x1f, 0, []byte{})
 	emitNIA1("known-answers", ik1, 0x38a6f056, 0x1f, 0, []byte{}, 0)
@@ -508,7 +545,7 @@ func run(r *hk.Run) {
 			}
 		}
 	}
-	bitStep := r.N(4, 1)
+	bitStep := r.N(2, 1)
 	for b := 0; b < 128; b += bitStep {
 		bit := b + r.Rng.Intn(bitStep)
 		emitKS("directed-keystream", keyWords(bitKey(bit)), keyWords(rndKey()), 2)
@@ -573,7 +610,7 @@ func run(r *hk.Run) {
 
 	// (3) structured random -------------------------------------------------
 	maxOct := r.N(48, 400)
-	nr := r.N(260, 6000)
+	nr := r.N(420, 8000)
 	for i := 0; i < nr; i++ {
 		key := rndKey()
 		if r.Rng.Intn(8) == 0 {
